@@ -79,6 +79,11 @@ def chains(depth):
                 for lb in leaf_opts():
                     for shape in ('tt', 'ts'):
                         yield ('sib', outer, la, lb, shape)
+                    # two test OBJECTS of one class: what one instance
+                    # declares is not what the other one declares
+                    if la[2] == 'inst' or lb[2] == 'inst':
+                        if all(x[2] == 'inst' or (x[0] is None and x[1] is None) for x in (la, lb)):
+                            yield ('sib', outer, la, lb, 'tc')
         return
     for outer in itertools.product(node_opts(), repeat=depth):
         for leaf in leaf_opts():
@@ -87,7 +92,7 @@ def chains(depth):
 
 def nblocks(depth):
     if depth == 's':
-        n = len(node_opts()) * len(leaf_opts()) ** 2 * 2
+        n = sum(1 for _ in chains('s'))
         return (n + BLOCK - 1) // BLOCK
     n = (len(node_opts()) ** depth) * len(leaf_opts())
     return (n + BLOCK - 1) // BLOCK
@@ -144,7 +149,9 @@ def build_block(depth, b):
             ta, tb = 'k%da' % i, 'k%db' % i
             tests.append(mk_test(ta, la))
             tests.append(mk_test(tb, lb))
-            second = {'t': tb} if shape == 'tt' else {'c': [{'t': tb}]}
+            if shape == 'tc':
+                tests[-1]['shcls'] = ta
+            second = {'t': tb} if shape in ('tt', 'tc') else {'c': [{'t': tb}]}
             n2 = {'c': [{'t': ta}, second]}
             if ol is not None:
                 n2['l'] = 'L1' if ol == 'sL1' else (UXNAME if ol == 'UX' else ol)
